@@ -701,8 +701,7 @@ class VTF:
 
             width >>= 1
             height >>= 1
-        # mip_count is the index of the last level created, so there is one more level than that.
-        self.mipmap_count = mip_count + 1
+        self.mipmap_count = mip_count
 
     @classmethod
     def read(cls: 'type[VTF]', file: IO[bytes], header_only: bool = False) -> 'VTF':
